@@ -861,6 +861,57 @@ fn case(g: &mut Gen, ctx: &mut Ctx) -> CaseResult {
     let c = *g.pick(&[Carrier::Sign1, Carrier::Sign, Carrier::Mac, Carrier::Mac0, Carrier::Encrypt, Carrier::Encrypt0, Carrier::Recipient]);
     let n = g.below(13);
     let mut ops: Vec<Op> = (0..n).map(|_| gen_op(g, c)).collect();
+    if g.ratio(1, 4) {
+        // repeated work: a create helper is called again with the arguments of an earlier call but for one
+        // (the detached payload, the AAD, the signer description, the output) — anything the builder
+        // remembers between calls must be keyed on all of them.  Data is sometimes page-sized.
+        let sized = |g: &mut Gen| -> Vec<u8> {
+            let n = *g.pick(&[4095usize, 4096, 4097, 5000, 8192, 16384]);
+            let seed = g.bytes(3);
+            (0..n).map(|i| seed[i % 3] ^ (i / 3) as u8).collect()
+        };
+        let creates: Vec<usize> = ops.iter().enumerate().filter(|(_, o)| matches!(o, Op::Create { .. } | Op::CreateDetached { .. } | Op::AddCreated { .. } | Op::AddDetached { .. })).map(|(i, _)| i).collect();
+        if !creates.is_empty() {
+            let at = creates[g.below(creates.len())];
+            if g.bool() {
+                match &mut ops[at] {
+                    Op::CreateDetached { payload, .. } | Op::AddDetached { payload, .. } => *payload = sized(g),
+                    Op::Create { aad, .. } | Op::AddCreated { aad, .. } => *aad = sized(g),
+                    _ => {}
+                }
+            }
+            let mut again = ops[at].clone();
+            let big = g.bool();
+            let data = |g: &mut Gen| if big { sized(g) } else { gen_data(g) };
+            match &mut again {
+                Op::AddDetached { sig, payload, aad, out, .. } => match g.below(4) {
+                    0 => *payload = data(g),
+                    1 => *aad = data(g),
+                    2 => sig.protected = gen_prot_desc(g),
+                    _ => *out = gen_out(g),
+                },
+                Op::CreateDetached { payload, aad, out, .. } => match g.below(3) {
+                    0 => *payload = data(g),
+                    1 => *aad = data(g),
+                    _ => *out = gen_out(g),
+                },
+                Op::AddCreated { sig, aad, out, .. } => match g.below(3) {
+                    0 => *aad = data(g),
+                    1 => sig.protected = gen_prot_desc(g),
+                    _ => *out = gen_out(g),
+                },
+                Op::Create { aad, plaintext, out, .. } => match g.below(3) {
+                    0 => *aad = data(g),
+                    1 => *plaintext = data(g),
+                    _ => *out = gen_out(g),
+                },
+                _ => {}
+            }
+            let to = at + 1 + g.below(ops.len() - at);
+            ops.insert(to, again);
+            ctx.class("history:create-call-repeated-with-one-argument-changed");
+        }
+    }
     if c == Carrier::Sign && g.ratio(1, 5) {
         // related headers: the body protected header and some signers' protected headers are the same
         // header, or the same up to the sign of a floating-point zero (equal under `==`, other bytes)
